@@ -4,3 +4,5 @@ from props.c10 import topo
 
 def run(ck):
     topo(ck, "C11")
+    from props.c08 import geo_trace
+    geo_trace(ck, cells_rmax=1 if ck.quick else 2)       # vertexToLatLng(slot i) = i-th topological corner of cellToBoundary
